@@ -1,6 +1,6 @@
 (** Correspondence for C12: the encoders and decoders of the wire model against
     MarshalJSON / UnmarshalJSON on structurally generated protocol values. *)
-From LOV Require Export Wire.Decode Wire.Encode Wire.SchemaCodec Corr.Common.
+From LOV Require Export Wire.Decode Wire.Encode Wire.SchemaCodec Wire.Operation Corr.Common.
 From Coq Require Import List.
 Import ListNotations.
 
@@ -9,7 +9,10 @@ Inductive target := RValue | RSet | RMap | RUuid | RRow | RCond | RMut | RBase |
     implementation's encoding (schema targets: the re-encoding of the decoded
     value), [c_dec] what the implementation decodes from its own encoding,
     [c_uuids] the strings that are well-formed uuids. *)
-Record case := mkCase { c_t : target; c_v : gval; c_enc : gval; c_dec : gval; c_uuids : list sym }.
+Record vcase := mkVCase { c_t : target; c_v : gval; c_enc : gval; c_dec : gval; c_uuids : list sym }.
+(** an operation: the value, the implementation's encoding, what the implementation decodes from it *)
+Inductive case := CVal (c : vcase) | COp (w : wop) (enc : gval) (dec : wop) (uuids : list sym).
+Definition mkCase t v e d u := CVal (mkVCase t v e d u).
 
 Definition FUEL := 64%nat.
 Definition eqv := geqv FUEL.
@@ -47,7 +50,26 @@ Definition model_dec (t : target) (j : gval) : res gval :=
 Definition is_schema (t : target) : bool :=
   match t with RBase | RColTy | RColumn => true | _ => false end.
 
-Definition check (c : case) : nat :=
+Definition row_eqv (a b : wrow) : bool := eqv (GObj a) (GObj b).
+Definition triple_eqv (a b : wtriple) : bool := N.eqb a.1.1 b.1.1 && N.eqb a.1.2 b.1.2 && eqv a.2 b.2.
+Definition oeqb {A} (e : A -> A -> bool) (a b : option A) : bool :=
+  match a, b with Some x, Some y => e x y | None, None => true | _, _ => false end.
+Definition wop_eqv (a b : wop) : bool :=
+  N.eqb (o_op a) (o_op b) && N.eqb (o_table a) (o_table b) && row_eqv (o_row a) (o_row b) &&
+  list_eqv row_eqv (o_rows a) (o_rows b) && list_eqv N.eqb (o_columns a) (o_columns b) &&
+  list_eqv triple_eqv (o_mutations a) (o_mutations b) && oeqb Z.eqb (o_timeout a) (o_timeout b) &&
+  list_eqv triple_eqv (o_where a) (o_where b) && N.eqb (o_until a) (o_until b) &&
+  oeqb Bool.eqb (o_durable a) (o_durable b) && oeqb N.eqb (o_comment a) (o_comment b) &&
+  oeqb N.eqb (o_lock a) (o_lock b) && N.eqb (o_uuid a) (o_uuid b) && N.eqb (o_uuid_name a) (o_uuid_name b).
+
+Definition check_op (w : wop) (enc : gval) (dec : wop) (uuids : list sym) : nat :=
+  let vu s := existsb (N.eqb s) uuids in
+  first_fail
+    [ (11, eqv (enc_op vu w) enc);
+      (12, match dec_op FUEL enc with Ok d => wop_eqv d dec | _ => false end);
+      (13, wop_eqv dec w) ]%nat.
+
+Definition check_val (c : vcase) : nat :=
   let vu s := existsb (N.eqb s) (c_uuids c) in
   first_fail
     [ (1, match model_enc vu (c_t c) (c_v c) with Some e => eqv e (c_enc c) | None => false end);
@@ -56,4 +78,6 @@ Definition check (c : case) : nat :=
           | _ => false end);
       (3, is_schema (c_t c) || eqv (c_dec c) (c_v c)) ]%nat.
 
+Definition check (c : case) : nat :=
+  match c with CVal v => check_val v | COp w e d u => check_op w e d u end.
 Definition run := run_cases check.
